@@ -502,10 +502,66 @@ def r6_components(program, rep):
              "breaks delivery")
 
 
+def r2_monitor_reservation(program, rep):
+    """wrapper(reserve_monitor=True) reserves core 0 on EVERY chip: the
+    global reservation is added whenever the flag is set, or left out only
+    because the caller's constraints already hold a global reservation of
+    that very range (one for a particular chip does not stand in for it)."""
+    from ..terms import method_calls
+    fn = program.get(WR + ":wrapper")
+    inst = qual(fn)
+    T = Terms(fn)
+    P = lambda n: ("param", n)      # noqa: E731
+    want = ("call", ("global", "ReserveResourceConstraint"),
+            (P("core_resource"), ("call", ("global", "slice"),
+                                  (("const", 0), ("const", 1)), ())), ())
+    sites = [(n, c) for n, c, recv, args in method_calls(T, ["append"])
+             if len(args) == 1 and plain(args[0]) == want]
+    if len(sites) != 1:
+        raise AnalysisError("wrapper: the monitor reservation is not added "
+                            "by one append of ReserveResourceConstraint("
+                            "core_resource, slice(0, 1))")
+    n, c = sites[0]
+    facts = [(plain(t), p) for t, p in T.all_facts(n)]
+    ok = (P("reserve_monitor"), True) in facts
+    rest = [(t, p) for t, p in facts if (t, p) != (P("reserve_monitor"),
+                                                   True)]
+    why = ""
+    for t, p in rest:
+        if not p and t[0] == "call" and t[1] == ("global", "any") and \
+                len(t[2]) == 1 and t[2][0][0] == "genexp":
+            body = t[2][0][1]
+            conj = list(body[1:]) if body[0] == "and" else [body]
+            glob = any(cj[0] == "cmp" and cj[1] in ("Is", "Eq") and
+                       ("const", None) in (cj[2], cj[3]) and any(
+                           st[0] == "attr" and st[2] == "location"
+                           for st in subterms(cj)) for cj in conj)
+            if not glob:
+                ok = False
+                why = "it is left out when the caller's constraints " \
+                    "hold a reservation of that range whatever its " \
+                    "location: one for a single chip silences the " \
+                    "reservation for all the others, whose core 0 is then " \
+                    "handed to vertices"
+        else:
+            raise AnalysisError("wrapper: the monitor reservation is added "
+                                "under a condition that is not read (%s)" %
+                                show(t)[:60])
+    rep.check(ok, "C01-R2", inst, "reserve_monitor adds a global "
+              "reservation of core 0 (or finds one already there)",
+              construct="monitor reservation", node=c,
+              fail="the global reservation of the monitor core is not "
+                   "added whenever reserve_monitor is set: " + why)
+
+
+r2_monitor_reservation.helper_aware = True
+
+
 def check(program, rep):
     program.module(WR)
     rep.guard("C01-R1", r1_pipeline, program, rep)
     rep.guard("C01-R2", r2_description, program, rep)
+    rep.guard("C01-R2", r2_monitor_reservation, program, rep)
     rep.guard("C01-R3", r3_cores, program, rep)
     rep.guard("C01-R4", r4_default_predicates, program, rep)
     r6_components(program, rep)
